@@ -569,6 +569,13 @@ def residual_check(acc, cname, prob, method, part, spec, mask, u, rhs, factor, t
 
     # ---- tolerance ---------------------------------------------------------------------------------
     kind = spec['kind']
+    if kind == 'krylov' and guess is not None:
+        g_ = float(np.max(np.abs(flat(guess))))
+        if g_ > 1e8 * max(float(np.max(np.abs(uf))), float(np.max(np.abs(rf))), 1e-300):
+            # an initial guess eight orders of magnitude above solution and right-hand side (a reference solution that blew
+            # up): the attainable residual of an iterative solver is eps * |A| * |guess|, nothing to judge
+            acc.count('initial_guess_out_of_scale_unjudged(krylov)')
+            return
     scale_lo = float(np.max(np.abs(uf)) + abs(factor) * np.max(np.abs(fi)) + np.max(np.abs(rf)))
     err_inf = float(np.max(np.abs(r))) if r.size else 0.0
     err_2 = float(np.linalg.norm(r))
